@@ -20,6 +20,18 @@ let report_spec ~prop ~pred ~detail =
 let histo : (string, int) Hashtbl.t = Hashtbl.create 64
 let bump_count key = Hashtbl.replace histo key (1 + (try Hashtbl.find histo key with Not_found -> 0))
 
+let xc_seen = ref 0
+let rec int_of_nat = function O -> 0 | S n -> 1 + int_of_nat n
+let coq_stmt = function
+  | SAlloc r -> Printf.sprintf "SAlloc %d" (int_of_nat r) | SUse r -> Printf.sprintf "SUse %d" (int_of_nat r)
+  | SReset -> "SReset" | SIterBegin i -> Printf.sprintf "SIterBegin %d" (int_of_nat i)
+  | SIterUse i -> Printf.sprintf "SIterUse %d" (int_of_nat i) | SDropArena -> "SDropArena" | SMoveArena -> "SMoveArena"
+  | SSpawnShare -> "SSpawnShare" | SSpawnMove -> "SSpawnMove" | SSpawnRef r -> Printf.sprintf "SSpawnRef %d" (int_of_nat r)
+let xc p acc safe =
+  incr xc_seen;
+  if !xc_seen mod 401 = 1 && !xc_seen < 401 * 60 then begin
+    let l = "[" ^ String.concat "; " (List.map coq_stmt p) ^ "]" in
+    Printf.printf "XC (accepts actual_facts st0 %s, drun dyn0 %s) === (%b, %b)\n" l l acc safe end
 let stmt_of tok =
   let num () = nat_of_int (int_of_string (String.sub tok 1 (String.length tok - 1))) in
   match tok.[0] with
@@ -61,6 +73,7 @@ let () =
               cur := kind ^ ":" ^ String.concat "," srct;
               let p = List.map stmt_of toks in
               let acc = accepts actual_facts st0 p and safe = drun dyn0 p in
+              xc p acc safe;
               bump_count ("kind_" ^ kind);
               bump_count ("len_" ^ string_of_int (List.length toks));
               if verdict = "ok" then incr accepted else incr rejected;
